@@ -117,7 +117,7 @@ def r1(F, R):
 
 def direction_matches(F):
     out = []
-    for b in F.bodies.values():
+    for b in F.hir_bodies():
         if b.kind == "closure" or not b.hir or K.is_std_derive(b):
             continue
         for n in hir_walk(b.hir["value"]):
@@ -177,7 +177,7 @@ def r2(F, R):
             R.bad("C01-R2", key, site, "Forward arm %s and Backward arm %s are not mirror images under M1/M2/M3" % (
                 show(canon(arms["Forward"]["body"], IDK)), show(canon(arms["Backward"]["body"], IDK))))
     # if-let / matches! on Direction are not an accepted idiom (they hide asymmetry): report
-    for b in F.bodies.values():
+    for b in F.hir_bodies():
         if not b.hir or "stepsize" in b.path:
             continue
         for n in hir_walk(b.hir["value"]):
@@ -187,6 +187,20 @@ def r2(F, R):
     R.floor("C01-R2", 4)
 
 
+def _tree_field(v):
+    """`&self.left` / `&other.right` as a MIR value tree -> (owner, field); owner is `self` for the receiver, `other` for any other tree"""
+    if v[0] == "ref":
+        v = v[1]
+    if v[0] == "field" and v[2] in MIRROR_FIELDS:
+        root = v[1]
+        while root[0] in ("deref", "ref"):
+            root = root[1]
+        if root[0] == "arg" and root[1] == 1:
+            return ("self", v[2])
+        return ("other", v[2])
+    return None
+
+
 def r3(F, R):
     R.rule("C01-R3", "U-turn checks in extend(): the set of (a, b) argument pairs is closed under left<->right; "
                      "every impl of is_turning orders its two states by index_in_trajectory before any other use")
@@ -194,12 +208,11 @@ def r3(F, R):
     if not ext:
         R.missing("C01-R3", "NutsTree::extend")
     for b in ext:
-        calls = [n for n in hir_walk(b.hir["value"]) if n.get("k") == "MethodCall" and path_ends(n.get("callee"), "Hamiltonian::is_turning")]
+        # on the MIR of extend (helpers outside the baseline decomposition are inlined): the two state operands of every is_turning call
         pairs = []
         whole = 0
-        for n in calls:
-            args = n["args"][-2:]
-            fs = [K.self_other_field(a) for a in args]
+        for _bb, t in b.calls_to(lambda c: path_ends(c["path"], "Hamiltonian::is_turning")):
+            fs = [_tree_field(b.value(a)) for a in t["args"][-2:]]
             if None in fs:
                 whole += 1
             else:
